@@ -89,6 +89,32 @@ def run_mbox(raw):
         return out, f"{type(e).__name__}: {e} / cause {e.__cause__!r}"
 
 
+def check_path_invariance(ctx, fmt, raw, base_results, name):
+    """The optional `path` argument (read_file, CLI, archive members, attachments all pass one) may only fill the file
+    location fields: every message must come back exactly as without it - message by message (date, message id, ...)."""
+    from sharepoint2text.parsing.extractors.mail import read_eml_format_mail, read_mbox_format_mail, read_msg_format_mail
+    fn = {"eml": read_eml_format_mail, "mbox": read_mbox_format_mail, "msg": read_msg_format_mail}[fmt]
+    try:
+        with_path = list(fn(io.BytesIO(raw), path=name))
+    except Exception as e:  # noqa
+        ctx.finding(f"{fmt}:path-argument:fails", f"{fmt}: extraction with path={name!r} fails ({e!r}) but works without",
+                    {"input_b64": base64.b64encode(raw).decode("ascii"), "path": name})
+        return
+    a = [canon_mail(m) for m in base_results]
+    b = [canon_mail(m) for m in with_path]
+    if a != b:
+        k = next((i for i in range(min(len(a), len(b))) if a[i] != b[i]), min(len(a), len(b)))
+        fields = [f for f in (a[k] if k < len(a) else {}) if k < len(b) and a[k][f] != b[k][f]]
+        ctx.finding(f"{fmt}:path-argument:changes-result", f"{fmt}: with path={name!r} message {k + 1} of {len(a)} differs in {fields}: "
+                    f"{[b[k][f] for f in fields]!r:.200} instead of {[a[k][f] for f in fields]!r:.200}",
+                    {"input_b64": base64.b64encode(raw).decode("ascii"), "path": name, "message_index": k, "fields": fields})
+    want_name = name.rsplit("/", 1)[-1]
+    bad = [i for i, m in enumerate(with_path) if m.metadata.filename != want_name]
+    if bad:
+        ctx.finding(f"{fmt}:path-argument:filename", f"{fmt}: metadata.filename of message {bad[0] + 1} is {with_path[bad[0]].metadata.filename!r}, "
+                    f"path was {name!r}", {"input_b64": base64.b64encode(raw).decode("ascii"), "path": name})
+
+
 def header_is_folded(raw: bytes, name: bytes) -> bool:
     head = raw.replace(b"\r\n", b"\n").split(b"\n\n", 1)[0].split(b"\n")
     for i, line in enumerate(head):
@@ -522,6 +548,7 @@ def run(ctx):
         except Exception:  # noqa
             pass
 
+    path_sample, box_sample = [], []
     body_cases, body_info, hdr_cases, hdr_info, addr_cases, addr_info = [], [], [], [], [], []
     eml_cases, eml_info, mail_cases, mail_info = [], [], [], []
     for sp, raw in specs:
@@ -534,6 +561,10 @@ def run(ctx):
                 ctx.finding(f"eml:fails:{sp['charset']}/{sp['api']}/{sp['layout']}", f"eml: extraction fails: {err}", {"message": r2})
             else:
                 check_message(ctx, "eml", sp, r2, ms[0], same_offset=False)
+                # (mailparser invents a new random name for a nameless attachment on every parse: not comparable)
+                if eol == b"\n" and len(path_sample) < ctx.n(25, 200) and all(f is not None for f, _, _ in sp["attachments"]) and not sp.get("forwarded"):
+                    path_sample.append(r2)
+                    check_path_invariance(ctx, "eml", r2, ms, "/no/such/dir/message %d.eml" % len(path_sample))
         # mailparser record -> fields (correspondence of _read_eml_format)
         if len(eml_cases) < ctx.n(120, 600):
             try:
@@ -598,6 +629,8 @@ def run(ctx):
         mm_.set_content("part one %d" % rng.randrange(100))
         mm_.make_mixed()
         for j in range(rng.randrange(1, 4)):
+            if rng.random() < 0.4:
+                mm_.add_attachment(b"%PDF-1.4 fake", maintype="application", subtype="pdf", filename="between%d.pdf" % j)
             pj = email.message.EmailMessage()
             if rng.random() < 0.5:
                 pj.set_content("more text %d" % j)
@@ -605,6 +638,23 @@ def run(ctx):
                 pj.set_content("<p>html %d</p>" % j, subtype="html")
             mm_.attach(pj)
         specs_extra_raw = mm_.as_bytes()
+        # property oracle: nothing of the inline text parts is lost (every part's text is in its body, in order)
+        e_x, err_x = run_eml(specs_extra_raw)
+        if e_x:
+            texts = [(p_.get_content_type(), p_.get_content().strip()) for p_ in mm_.iter_parts()]
+            for ctype_, fld in (("text/plain", "body_plain"), ("text/html", "body_html")):
+                got_b = getattr(e_x[0], fld)
+                pos, lost = 0, None
+                for ct_, tx_ in texts:
+                    if ct_ == ctype_:
+                        at = got_b.find(tx_, pos)
+                        if at < 0:
+                            lost = tx_
+                            break
+                        pos = at + len(tx_)
+                if lost is not None:
+                    ctx.finding(f"eml:body:inline-part-dropped:{ctype_}", f"eml: the inline {ctype_} part {lost!r} is missing from {fld} "
+                                f"({got_b!r:.120}); parts: {texts!r:.200}", {"message_b64": base64.b64encode(specs_extra_raw).decode("ascii"), "format": "eml", "field": fld})
         try:
             from mailparser import parse_from_bytes
             mp = parse_from_bytes(specs_extra_raw)
@@ -639,6 +689,9 @@ def run(ctx):
         if len(ms) != n:
             ctx.finding(f"mbox:count:{mode}", f"mbox of {n} messages gives {len(ms)} results", {"mbox": box, "messages": n})
             continue
+        check_path_invariance(ctx, "mbox", box, ms, rng.choice(["/no/such/dir/archive.mbox", "relative/inbox.mbox", "Inbox.MBOX"]))
+        if n >= 1 and len(box) < 60000 and len(box_sample) < 12:
+            box_sample.append(box)
         for (sp, raw), m in zip(chosen, ms):
             check_message(ctx, "mbox", sp, raw.replace(b"\n", eol), m, same_offset=True, quoted=mode)
             # .eml and .mbox parsers against each other on what both are expected to deliver
@@ -672,6 +725,35 @@ def run(ctx):
     if e2 and m2 and nl(e2[0].body_plain) != nl(m2[0].body_plain):
         ctx.finding("eml-vs-mbox:several-inline-text-parts", f".eml joins all inline text/plain parts ({e2[0].body_plain!r}), .mbox takes the first "
                     f"({m2[0].body_plain!r})", {"message": raw2, "eml": e2[0].body_plain, "mbox": m2[0].body_plain})
+
+    # ---- the public entry point on real files (path given, as the CLI does) for a few mailboxes and messages
+    import tempfile
+    import sharepoint2text
+    with tempfile.TemporaryDirectory(dir="/var/tmp") as td:
+        for i, box in enumerate(box_sample[:6]):
+            fp = f"{td}/box{i}.mbox"
+            open(fp, "wb").write(box)
+            base_ms, _ = run_mbox(box)
+            try:
+                via = list(sharepoint2text.read_file(fp))
+            except Exception as ex:  # noqa
+                ctx.finding("read_file:mbox:fails", f"read_file fails on a mailbox the extractor reads: {ex!r}", {"mbox": box})
+                continue
+            ctx.case(("read_file-mbox", i), True, kind="read_file:mbox")
+            if [canon_mail(m) for m in via] != [canon_mail(m) for m in base_ms]:
+                a_, b_ = [canon_mail(m) for m in base_ms], [canon_mail(m) for m in via]
+                k_ = next((j for j in range(min(len(a_), len(b_))) if a_[j] != b_[j]), 0)
+                ctx.finding("mbox:path-argument:changes-result", f"read_file({fp.rsplit('/', 1)[-1]!r}): message {k_ + 1} differs from the extractor's result on the same bytes: "
+                            f"{ {f: b_[k_][f] for f in b_[k_] if k_ < len(a_) and a_[k_][f] != b_[k_][f]}!r:.300}", {"input_b64": base64.b64encode(box).decode("ascii")})
+
+    # ---- environment sweep: DEBUG logging, worker thread, time zones, cwd must not change any field
+    import common
+    def env_fn(case):
+        kind, data = case
+        ms_, err_ = (run_eml(data) if kind == "eml" else run_mbox(data))
+        return (err_ and err_[:60], [sorted((k_, repr(v_)) for k_, v_ in canon_mail(m).items()) for m in (ms_ or [])])
+    env_cases = [("eml", r) for r in path_sample[:ctx.n(20, 120)]] + [("mbox", b_) for b_ in box_sample[:ctx.n(6, 12)]]
+    common.env_sweep(ctx, "mail-extraction", env_fn, env_cases, describe=lambda c: f"{c[0]} of {len(c[1])} bytes")
 
     # ---- fixtures: .msg field mapping against the .eml twin; basic fixtures
     from sharepoint2text.parsing.extractors.mail.msg_email_extractor import read_msg_format_mail
